@@ -165,9 +165,11 @@ func (v *View) Apply(evs []*shim.Ev, settle bool) []ProtoViolation {
 				break
 			}
 			if e.Key == "" {
+				// a release without allocation key removes every allocation and every ask of the application
 				for _, k := range v.Keys {
-					if k.App == e.App && (k.Phase == PhBound || k.Phase == PhReleasing) {
+					if k.App == e.App && !k.Foreign && (k.Phase == PhBound || k.Phase == PhReleasing || k.Phase == PhPending) {
 						k.Phase = PhStopping
+						k.ShimReleased = true
 					}
 				}
 				break
